@@ -66,10 +66,19 @@ def registry(rep, names):
     rep.count("registry_probes", n)
 
 
+_BUFFERS = {}
+
+
 def present(np, x, y, k):
     """The same two vectors handed over the ways callers hold them: fresh float64 arrays, read-only arrays, integer-typed arrays
     (when every component is integral), rows of a 2-D array (what a Node's features are), strided views."""
-    how = ("float64", "readonly", "integer", "rows", "strided")[k % 5]
+    how = ("float64", "readonly", "integer", "rows", "strided", "buffer")[k % 6]
+    if how == "buffer":
+        # one pair of work buffers per length, refilled in place before every evaluation (same objects, new contents)
+        bx, by = _BUFFERS.setdefault(len(x), (np.zeros(len(x)), np.zeros(len(x))))
+        bx[:] = x
+        by[:] = y
+        return bx, by, how
     if how == "integer" and not all(float(v).is_integer() for v in list(x) + list(y)):
         how = "readonly"
     if how == "float64":
@@ -142,7 +151,7 @@ def run(tier, seed):
     rep.cov["evaluations"] = ncmp
     rep.cov["distinct_nontrivial"] = len(nontrivial)
     rep.cov["argument_presentations"] = sorted(shapes)
-    rep.cov["rule"] = "47 identifiers x vector lengths 1..6 x (exact grid {0,.5,1,1.5,2,3} (+negatives for norm-type), zero-containing, random in-domain, identical and parallel pairs), arguments handed over as fresh float64 / read-only / integer-typed arrays, rows of a matrix and strided views; distinct_nontrivial counts (metric, length, x!=y) combinations compared; registry: 47 names + ~240 near-miss strings x 5 model classes"
+    rep.cov["rule"] = "47 identifiers x vector lengths 1..6 x (exact grid {0,.5,1,1.5,2,3} (+negatives for norm-type), zero-containing, random in-domain, identical and parallel pairs), arguments handed over as fresh float64 / read-only / integer-typed arrays, rows of a matrix, strided views and work buffers refilled in place; distinct_nontrivial counts (metric, length, x!=y) combinations compared; registry: 47 names + ~240 near-miss strings x 5 model classes"
     rep.assumptions = ["closed forms are held in Metrics.tla and instantiated by TLC per vector length; evaluated in float64 by lib/terms.py", "comparison under rtol 1e-9 x conditioning scale (atol 1e-6 for chord): sampling over the reals, not model checking", "the reference forms are the library's definitions at the pinned commit (Cha 2007 up to documented constant factors)"]
     return rep.finish()
 
